@@ -288,6 +288,14 @@ class C24(Prop):
                     o = ["rep", im, sm]
             if o is None:
                 continue
+            if o[0] == "rep":      # a Python dict cannot hold one key twice
+                for k in (1, 2):
+                    seen, uniq = set(), []
+                    for a, b in o[k]:
+                        if tuple(a) not in seen:
+                            seen.add(tuple(a))
+                            uniq.append([a, b])
+                    o[k] = uniq
             ops.append(o)
             cls = spec.classify(o)
             if cls == "ok":
